@@ -97,8 +97,11 @@ def _tmpfile():
     return _tmp
 
 
-SMALL = dict(domains=[None, "example.com", "a.example.com", "com"], cpaths=[None, "/x", "/x/"], maxage=[None, 1],
-             secure=[False], qpaths=["/", "/x", "/x/y"])
+SMALL = dict(domains=[None, "example.com", "a.example.com", "com"], cpaths=[None, "/x"], maxage=[None, 1],
+             secure=[False], qpaths=["/", "/x/y"])
+# histories that go through save/load: fewer domains, but paths with and without a trailing slash
+SMALL_SL = dict(domains=[None, "example.com"], cpaths=[None, "/x", "/x/"], maxage=[None, 1],
+                secure=[False], qpaths=["/", "/x", "/x/y"])
 FULL = dict(domains=DOMAINS, cpaths=CPATHS, maxage=MAXAGE, secure=[False, True], qpaths=PATHS)
 
 
@@ -113,7 +116,7 @@ def history(ctx, k=3, first=None, hosts=None, names=("a", "b"), steps=None, fina
     jar = cj.CookieJar()
     ref = ref_cookies.Store()
     hosts = hosts or HOSTS
-    A = FULL if alpha == "full" else SMALL
+    A = FULL if alpha == "full" else (SMALL_SL if alpha == "small-sl" else SMALL)
     trace = []
     vcount = [0]
     kinds = steps or ["set", "advance", "query", "clear_domain", "saveload", "clear"]
@@ -164,7 +167,7 @@ def history(ctx, k=3, first=None, hosts=None, names=("a", "b"), steps=None, fina
             jar.update_cookies_from_headers([hdr], url)
             ref.set_cookie(clock.now, host, rpath, name, value, dom, cpath, sec, ma)
         elif kind == "advance":
-            dt = ctx.pick(f"dt{i}", [1, 10] if alpha == "small" and quick_time else [1, 2, 10])
+            dt = ctx.pick(f"dt{i}", [1, 10] if alpha != "full" and quick_time else [1, 2, 10])
             clock.now += dt
             trace.append(("advance", dt))
         elif kind == "clear":
@@ -255,7 +258,8 @@ def jobs(tier):
         for h in two:
             out.append(dict(name="hist-" + "-".join(sh) + "-" + h, func="history",
                             params=dict(k=len(sh), first=sh, hosts=two if heavy else core_hosts, set_host=h,
-                                        names=("a",) if heavy else ("a", "b"), alpha="small", quick_time=quick), limits=lim))
+                                        names=("a",) if heavy else ("a", "b"),
+                                        alpha="small-sl" if "saveload" in sh else "small", quick_time=quick), limits=lim))
     return out
 
 
